@@ -255,6 +255,41 @@ def a4(run, tu):
                ok, tu.where(n.ast), 'one iteration maps (flat, length) -> flat as %s; expected the product' % sorted(res.items()))
 
 
+def a5(run, btu, wtu):
+    """a Python list/str given for a pointer argument is copied into a temporary that both call paths zero-fill first (the initialiser
+    may be partial): on every path from where the temporary's address is taken to the conversion, memset(buf, 0, size) is passed"""
+    from ..cast.cfg import cfg_of as _cfg
+    for tu, F, conv in ((btu, 'cdata_call', 'convert_array_from_object'), (wtu, '_cffi_convert_array_argument', '_cffi_convert_array_from_object')):
+        g = _cfg(tu, F)
+        callee = conv
+        if tu is wtu:
+            # in the generated module the conversion is reached through its export slot: resolve the macro of _cffi_include.h
+            mac = tu.macros.get(conv)
+            m = re.search(r'_cffi_exports\[(\w+)\]', mac[1]) if mac else None
+            run.need(m is not None, '_cffi_include.h: macro %s is no longer an export slot' % conv)
+            callee = '_cffi_exports[%s]' % m.group(1)
+        is_conv = lambda c: cx.callee_name(c) == callee or cx.callee_text(c).replace(' ', '') == callee
+        convs = [n for n in g.nodes if n.ast is not None and any(is_conv(c) for c in cx.calls_in(n.ast))]
+        run.need(len(convs) == 1, '%s: expected one call of %s, found %d' % (F, conv, len(convs)))
+        call = [c for c in cx.calls_in(convs[0].ast) if is_conv(c)][0]
+        buf = cx.render(cx.strip(cx.call_args(call)[0], casts=True))
+        sets = []
+        for n in g.nodes:
+            if n.ast is None:
+                continue
+            for c in cx.calls_in(n.ast):
+                if cx.callee_name(c) in ('memset', '__builtin_memset', '__builtin___memset_chk'):
+                    a = [cx.render(cx.strip(x, casts=True)) for x in cx.call_args(c)][:3]
+                    if a[0] == buf and a[1] == '0' and a[2] == 'datasize':
+                        sets.append(n.id)
+        defs = [n for n in g.nodes if n.ast is not None and any(cx.lhs_text(a_[0]) == buf for a_ in cx.assignments(n.ast))]
+        run.need(len(defs) >= 2, '%s: expected the two places where %s is given its address (stack and heap), found %d' % (F, buf, len(defs)))
+        for d in defs:
+            r = g.reach([d.id], avoid=set(sets), include_start=False)
+            run.ob('A5/temporary-argument-zero-filled-before-the-initialiser-is-applied', F, '%s ... %s' % (cx.render(d.ast)[:60], conv), convs[0].id not in r, tu.where(d.ast),
+                   'a path reaches %s(%s, ...) without memset(%s, 0, datasize); the other call path passes zeros for omitted items' % (conv, buf, buf))
+
+
 def check(run):
     thorough = run.tier == 'thorough'
     run.technique = ('sibling cross-check: symbolic walk of the wrapper generator template (Python ast, abstract function types), clang-AST '
@@ -264,8 +299,10 @@ def check(run):
     a2(run, thorough)
     a3(run, backend_tu())
     a4(run, backend_tu())
+    from ..cast.loader import wrapper_tu
+    a5(run, backend_tu(), wrapper_tu())
     run.assume('decided: that the API-mode attribute and the addressof/libffi path reach the same C function with the same argument order, '
                'types and type-table entry; conversions are C03 R5-R7, errno C22, ABI table equivalence C11; not decided: libffi itself, '
-               'which structs may be passed by value (fb_unsupported), but the flattening of array members is (A4); equality of outcomes on concrete argument tuples')
-    for rule, k in (('A1', 20), ('A2/row-pairs-the-siblings-of-its-own-name', 25), ('A2/siblings-call-the-same-function-with-arguments-in-order', 25), ('A3', 8), ('A4', 2)):
+               'which structs may be passed by value (fb_unsupported), but the flattening of array members is (A4); zero-filling of temporaries for pointer arguments on both paths (A5); equality of outcomes on concrete argument tuples')
+    for rule, k in (('A1', 20), ('A2/row-pairs-the-siblings-of-its-own-name', 25), ('A2/siblings-call-the-same-function-with-arguments-in-order', 25), ('A3', 8), ('A4', 2), ('A5', 4)):
         run.min_instances(rule, k)
